@@ -169,8 +169,9 @@ def _bundle_oracle(ctx, nl):
     warnings.simplefilter('ignore')
     rng = random.Random(ctx.seed * 29 + 8)
     out, n = [], 0
-    for li in range(nl):
-        spec = lensgen.gen_spec(rng, nsurf=rng.choice([1, 2, 3, 4]), allow=['even_asphere', 'polynomial', 'chebyshev', 'standard'])
+    corp = [c for c in lensgen.corpus() if c['name'] in ('asphere-positive', 'asphere-finite')]
+    for li in range(nl + len(corp)):
+        spec = dict(corp[li]) if li < len(corp) else lensgen.gen_spec(rng, nsurf=rng.choice([1, 2, 3, 4]), allow=['even_asphere', 'polynomial', 'chebyshev', 'standard'])
         try:
             o = lensgen.build(spec)
         except Exception:      # noqa
@@ -182,7 +183,7 @@ def _bundle_oracle(ctx, nl):
         m = 13
         Px = np.array([0.0] + [0.9 * math.cos(2 * math.pi * j / 6) * r for r in (0.5, 1.0) for j in range(6)])
         Py = np.array([0.0] + [0.9 * math.sin(2 * math.pi * j / 6) * r for r in (0.5, 1.0) for j in range(6)])
-        Hy = rng.choice([0.0, 1.0, 0.7])
+        Hy = 1.0 if li < len(corp) else rng.choice([0.0, 1.0, 0.7])
         try:
             o.trace_generic(np.zeros(m), np.full(m, Hy), Px.copy(), Py.copy(), wv)
         except Exception:      # noqa
